@@ -94,6 +94,7 @@ def collect(prop):
                 items.append(("patch", {"patch": os.path.join(td, f), "expect": "silent", "note": "behaviour-preserving refactoring twins/%s" % f,
                                         "file": f}))
     for t in ("rename", "rettemp", "iftemp", "ifexp", "argtemp", "compr2loop", "cmpflip", "swapif", "guard", "unelse",
+              "andsplit", "andmerge", "isnot", "elsewrap", "tupassign",
               "rename+rettemp+iftemp+ifexp+argtemp+compr2loop+cmpflip+swapif+guard"):
         items.append(("meta", {"transform": t, "expect": "silent", "file": "metamorph:" + t,
                                "note": "whole-tree syntactic rewrite sa/metamorph.py " + t}))
